@@ -416,7 +416,10 @@ pub fn c16_step(st: &mut C16State, pre: &StoreSnap, post: &StoreSnap, step: &Ste
 pub struct C17State {
     pub at_cap_hits: u64,
 }
-pub const ERR_ASSET_CAPACITY: u64 = 6003;
+/// numeric code of the capacity error, taken from the program's own enum (robust against renumbering)
+pub fn err_asset_capacity() -> u64 {
+    u32::from(marginfi::errors::MarginfiError::BankAssetCapacityExceeded) as u64
+}
 
 pub fn c17_step(_st: &mut C17State, pre: &StoreSnap, post: &StoreSnap, step: &Step, w: &World) -> Vec<Finding> {
     let mut out = vec![];
@@ -433,7 +436,7 @@ pub fn c17_step(_st: &mut C17State, pre: &StoreSnap, post: &StoreSnap, step: &St
                 }
             } else if *up == 2 {
                 if let Some((_, code)) = step.err {
-                    if code == ERR_ASSET_CAPACITY {
+                    if code == err_asset_capacity() {
                         out.push(finding("caps:up-to-limit-failed", format!("op#{}: deposit_up_to_limit({}) failed with the capacity error", step.index, step.amount)));
                     }
                 }
